@@ -5,7 +5,7 @@
 //! usage: lpdrv <jobs.json> <results.ndjson>
 //! job: {id, file, out_dir, lane_table: "default"|"disabled", features: [..]|null,
 //!       emit_comments, emit_whitespace (default true), emit_report, force (default true),
-//!       timeout_s (default 60)}
+//!       timeout_s (default 60), via: "set_features" (default) | "cargo_env" (features through CARGO_FEATURE_*, process_dir)}
 //! result line: {id, status: "ok"|"err"|"panic"|"timeout", message, export: {...}, wall_ms}
 //! The diagnostics LALRPOP prints go to this process's stdout/stderr, bracketed
 //! by `@@BEGIN <id>` / `@@END <id>` lines (on both streams).
@@ -88,10 +88,32 @@ fn main() {
             cfg.emit_comments(job2["emit_comments"].as_bool().unwrap_or(false));
             cfg.emit_whitespace(job2["emit_whitespace"].as_bool().unwrap_or(true));
             cfg.emit_report(job2["emit_report"].as_bool().unwrap_or(false));
+            let via_env = job2["via"].as_str() == Some("cargo_env");
             if let Some(fs) = job2["features"].as_array() {
-                cfg.set_features(fs.iter().map(|f| f.as_str().unwrap().to_string()));
+                if via_env {
+                    // the way a build script gets them from Cargo
+                    for f in fs {
+                        std::env::set_var(format!("CARGO_FEATURE_{}", f.as_str().unwrap().to_uppercase()), "1");
+                    }
+                } else {
+                    cfg.set_features(fs.iter().map(|f| f.as_str().unwrap().to_string()));
+                }
             }
-            cfg.process_file(&file).map_err(|e| e.to_string())
+            let r = if via_env {
+                // process_dir over the directory that holds (only) this file
+                let dir = std::path::Path::new(&file).parent().unwrap().to_path_buf();
+                cfg.process_dir(dir).map_err(|e| e.to_string())
+            } else {
+                cfg.process_file(&file).map_err(|e| e.to_string())
+            };
+            if via_env {
+                if let Some(fs) = job2["features"].as_array() {
+                    for f in fs {
+                        std::env::remove_var(format!("CARGO_FEATURE_{}", f.as_str().unwrap().to_uppercase()));
+                    }
+                }
+            }
+            r
         });
         DEADLINE_MS.store(0, Ordering::SeqCst);
         let export_s = lalrpop::verif::take_export();
